@@ -117,12 +117,16 @@ func (v otrV3) verifyInstanceTags(c *Conversation, their, our uint32) error {
 		return errInvalidOTRMessage
 	}
 
+	if our != 0 && c.ourInstanceTag != our {
+		c.messageEvent(MessageEventReceivedMessageForOtherInstance)
+		return errReceivedMessageForOtherInstance
+	}
+
 	if c.theirInstanceTag == 0 {
 		c.theirInstanceTag = their
 	}
 
-	if (our != 0 && c.ourInstanceTag != our) ||
-		(c.theirInstanceTag != their) {
+	if c.theirInstanceTag != their {
 		c.messageEvent(MessageEventReceivedMessageForOtherInstance)
 		return errReceivedMessageForOtherInstance
 	}
